@@ -18,6 +18,7 @@ class MemoSite:
         self.store = store      # ast stmt
         self.value = value      # ast expr
         self.keys = keys        # names allowed as cache keys
+        self.guarded = guard.body if guard is not None else []
 
     @property
     def key(self):
@@ -64,18 +65,41 @@ def find_memo_sites(model, ctx=None):
             for r in rets:
                 sites.append(MemoSite(f, 'cached_property', 'self', f.name, None, r, r.value, set()))
             continue
+        # the early-return form of a memo: `if o.a is not None [and o.a[0] == k]: return o.a ...` followed by the
+        # computation and the store in the rest of the block is `if o.a is None [or o.a[0] != k]: <rest of the block>`
+        rest_of = {}
+        for holder in walk_no_nested(f.node):
+            for fld in ('body', 'orelse', 'finalbody'):
+                blk = getattr(holder, fld, None)
+                if not isinstance(blk, list):
+                    continue
+                for i_, st_ in enumerate(blk):
+                    if isinstance(st_, ast.If) and not st_.orelse and st_.body and \
+                       isinstance(st_.body[-1], (ast.Return, ast.Break, ast.Continue)):
+                        conj = st_.test.values if isinstance(st_.test, ast.BoolOp) and isinstance(st_.test.op, ast.And) else [st_.test]
+                        c0 = conj[0]
+                        if isinstance(c0, ast.Compare) and len(c0.ops) == 1 and isinstance(c0.ops[0], ast.IsNot) and \
+                           isinstance(c0.comparators[0], ast.Constant) and c0.comparators[0].value is None:
+                            rest_of[id(st_)] = (c0.left, conj[1:], blk[i_ + 1:])
         for n in walk_no_nested(f.node):
             if not isinstance(n, ast.If):
                 continue
             alts = _guard_alternatives(n.test)
             first = alts[0]
             tested = _is_none_cmp(first)
+            guarded = n.body
             # keys: other names compared in the guard (o.c[0] != f)
             keys = set()
             for a in alts[1:]:
                 for x in ast.walk(a):
                     if isinstance(x, ast.Name):
                         keys.add(x.id)
+            if tested is None and id(n) in rest_of:
+                tested, others, guarded = rest_of[id(n)]
+                for a in others:
+                    for x in ast.walk(a):
+                        if isinstance(x, ast.Name):
+                            keys.add(x.id)
             if tested is not None:
                 # o.a is None / o.a[k] is None / getattr(o, 'a', None) is None
                 tgt = None
@@ -95,7 +119,7 @@ def find_memo_sites(model, ctx=None):
                 if tgt is None:
                     continue
                 owner = norm(tgt.value)
-                for st in n.body:
+                for st in guarded:
                     for s in [st] + [x for x in walk_no_nested(st) if isinstance(x, ast.stmt)]:
                         if isinstance(s, ast.Assign):
                             for t in s.targets:
@@ -104,7 +128,9 @@ def find_memo_sites(model, ctx=None):
                                     tt = t.value
                                 if isinstance(tt, ast.Attribute) and tt.attr == tgt.attr and \
                                    norm(tt.value) == owner:
-                                    sites.append(MemoSite(f, kind, owner, tgt.attr, n, s, s.value, keys))
+                                    ms_ = MemoSite(f, kind, owner, tgt.attr, n, s, s.value, keys)
+                                    ms_.guarded = guarded      # the statements that run on a miss
+                                    sites.append(ms_)
             else:
                 # if k not in o.c: o.c[k] = v
                 if isinstance(first, ast.Compare) and len(first.ops) == 1 and \
